@@ -13,10 +13,11 @@ From WireGen Require Import Tags Writer Reader.
 Definition i_ss : nat := tix "SenderSupplied".
 Definition i_bfc : nat := tix "BusinessFunctionCode".
 Definition i_ua : nat := tix "UnstructuredAddenda".
+Definition i_omad : nat := tix "OutputMessageAccountabilityData".
 
 (* tags whose round trip is proved *)
 Definition covered (i : nat) : bool :=
-  (i =? i_ss) || (i =? i_bfc) || (i =? i_ua) || layout_ok (nth i tags tag_Amount).
+  (i =? i_ss) || (i =? i_bfc) || (i =? i_ua) || (i =? i_omad) || layout_ok (nth i tags tag_Amount).
 
 (* the reader's minimum-length guard admits the text of this value (static for 48 tags; for the 8 tags whose
    shortest canonical text is below the guard it is a condition on the value, which validity implies) *)
@@ -30,7 +31,7 @@ Definition guard_ok (d : tagdesc) (v : tagval) : bool :=
 (* the canonical values of a covered tag: its own marker, canonical elements, FAIM text *)
 Definition canonical_value (i : nat) (v : tagval) : bool :=
   (if i =? i_ss then ss_canonical v else if i =? i_bfc then bfc_canonical v else if i =? i_ua then ua_canonical v
-   else canonical_tag (nth i tags tag_Amount) v && guard_ok (nth i tags tag_Amount) v) &&
+   else if i =? i_omad then omad_canonical v else canonical_tag (nth i tags tag_Amount) v && guard_ok (nth i tags tag_Amount) v) &&
   bytes_eqb (tv_marker v) (t_marker (nth i tags tag_Amount)) && values_plain v.
 
 Definition msg_covered (m : message) : Prop :=
@@ -63,6 +64,16 @@ Lemma ua_is : nth i_ua tags tag_Amount = tag_UnstructuredAddenda. Proof. reflexi
 Lemma ua_parse : t_parse tag_UnstructuredAddenda = [PGuard CLt 10; PTag false; PAddenda 0 1]. Proof. reflexivity. Qed.
 Lemma ua_format : t_format tag_UnstructuredAddenda = [FTag; FAlpha 0 4; FAddenda 0 1]. Proof. reflexivity. Qed.
 Lemma ua_nelems : length (t_elems tag_UnstructuredAddenda) = 2. Proof. reflexivity. Qed.
+Lemma omad_is : nth i_omad tags tag_Amount = tag_OutputMessageAccountabilityData. Proof. reflexivity. Qed.
+Lemma omad_parse : t_parse tag_OutputMessageAccountabilityData =
+    [PGuard CLt 14; PTag false; PSetLen 6; PFixed 0 8 "OutputCycleDate"; PFixed 1 8 "OutputDestinationID";
+     PNeed 6 "OutputSequenceNumber"; PDyn 2 6 false; PFixed 3 4 "OutputDate"; PFixed 4 4 "OutputTime";
+     PFixed 5 4 "OutputFRBApplicationIdentification"; PVerifyLen].
+Proof. reflexivity. Qed.
+Lemma omad_format : t_format tag_OutputMessageAccountabilityData =
+    [FForceFixed; FTag; FRightAlpha 0 8; FRightAlpha 1 8; FNumeric 2 6; FRightAlpha 3 4; FRightAlpha 4 4; FRightAlpha 5 4; FStripIfVariable].
+Proof. reflexivity. Qed.
+Lemma omad_nelems : length (t_elems tag_OutputMessageAccountabilityData) = 6. Proof. reflexivity. Qed.
 Lemma ntags_len : length tags = ntags. Proof. reflexivity. Qed.
 Global Opaque tags.
 
@@ -79,6 +90,8 @@ Proof.
       apply (bfc_round_trip v variable Hv bfc_parse bfc_format bfc_options bfc_nelems).
     + destruct (i =? i_ua) eqn:Eu.
       { apply Nat.eqb_eq in Eu. subst i. rewrite ua_is. apply (ua_round_trip v variable Hv ua_parse ua_format ua_nelems). }
+      destruct (i =? i_omad) eqn:Eo.
+      { apply Nat.eqb_eq in Eo. subst i. rewrite omad_is. apply (omad_round_trip v variable Hv omad_parse omad_format omad_nelems). }
       cbn [orb] in Hc. apply andb_true_iff in Hv as [Hv Hg]. unfold guard_ok in Hg.
       destruct (guard_static (nth i tags tag_Amount)) eqn:Egs; [apply (tag_roundtrip_static _ v variable Hc Egs Hv)|].
       cbn [orb] in Hg. apply andb_true_iff in Hg as [Hg1 Hg2].
